@@ -4,6 +4,12 @@ NOTES = ("Every check rebuilds the harness from /repo's working tree (go build -
          "then runs the correspondence between the Lean model driver and the real code. See DESIGN.md.")
 NOT_APPLICABLE = {}
 CHECKS = {
+ "C01": {
+  "text": "Lean theorem compile_correct: for every rule tree (and/or/not/if/then/else/nested/atLeast/atMost/exactly of any depth and width) and every environment in which each atom's negated twin is its complement, the failure-DNF produced by the transliterated dispatch/genAnd/genOr/expandBranches fires exactly where the formula is classically false; corollaries: operand order, flattening, double negation, De Morgan, contraposition, if/then/else as two implications, target selection (reported_iff), cardinality atoms classical on every graph (graphEnv_classical). Tied to the Go translator by whole-truth-table validations of random formulas through the real pkg.Validate, plus random-graph streams for nested/quantified rules and every atom kind.",
+  "note": "Trusted: Lean kernel; the transliteration of the generator and of Negate(); OPA's evaluation of each per-constraint snippet (modelled by Atom.fails, tied by the atoms stream); yaml.v3; json-gold on flat documents. Hypotheses kept visible: Proper (no empty and/or body) and Classical (per-value atoms are complementary only on single-valued properties).",
+  "technique": "Lean 4 proof by mutual functional induction over the well-founded translator model + differential correspondence (real pkg.Validate vs compiled Lean driver) on truth-table graphs",
+  "ref": "DESIGN.md 7/C01",
+ },
  "C02": {
   "text": "Lean theorems (clauses_denote, count_is_card, alt_is_union, seq_is_composition, inverse_is_converse, bindings_distinct) prove for every path and every graph that the union of the traversal clauses the generator emits is the relational denotation of the path; the traversal model is tied to internal/generator/path.go by running real validations on random paths x graphs and comparing reached values and counts with the model.",
   "note": "Trusted: Lean kernel; the hand-written transliteration of traverse*/aggregateResultsIntoSet; OPA's evaluation of nested_nodes/search_subjects/nodes_array (modelled by stepItems, tied only differentially); json-gold flattening of the generated flat documents.",
